@@ -193,7 +193,7 @@ class Translator:
         elif ev == 's3_end':
             self.emit(i, 'ES3End', r['idx'], r['outcome'] == 'ok')
         elif ev in ('result_return', 'result_raise'):
-            if a < 0:
+            if a < 0 and not (ev == 'result_raise' and r['exc']['type'] == 'KeyboardInterrupt'):
                 self.emit(i, 'EResult', a, t, ev == 'result_raise')
         elif ev == 'shutdown_begin':
             self.emit(i, 'EShutdownBegin')
